@@ -239,7 +239,7 @@ impl Prop for Repair {
         if !big && !crowd_of_files && rng.chance(1, 12) {
             case.params.insert("foreign".into(), 1);
         }
-        if rng.chance(1, 4) {
+        if !crowd_of_files && rng.chance(1, 4) {
             case.params.insert("out_layers".into(), rng.range(1, 3) as i64);
             // (setting up the output layers for every repaired cut costs milliseconds: fewer cuts)
             if !case.params.contains_key("full_sweep_limit") {
